@@ -14,6 +14,7 @@ package main
 
 import (
 	"fmt"
+	"strings"
 
 	"fxverif/lib"
 )
@@ -51,6 +52,9 @@ func lifecycleHistory(seed int64, rep *lib.Report) {
 	mon := newMonitor(w, rep, h)
 	replayDoc := map[string]interface{}{"lifecycle": true, "seed": seed}
 	fail := func(sig, what string) {
+		if !strings.HasPrefix(sig, prop+":") {
+			return // the C04 run reports the C04 readings, the C08 run the C08 ones
+		}
 		rep.Fail(lib.Failure{Kind: "monitor", What: what, Sig: sig, Replay: replayDoc})
 	}
 	record := func(o Op, err error) {
@@ -74,6 +78,19 @@ func lifecycleHistory(seed int64, rep *lib.Report) {
 	rep.Count("lifecycle:export-import")
 	before := w.cells(c.Ctx) // (ExportImport committed the block: c is at the exported state)
 	names := w.cellNames()
+	// crosschain bridge-token registry (contract -> bridge denomination) and the erc20 mint-vs-unlock rule, before
+	type regKey struct{ ch, contract string }
+	regBefore := map[regKey]string{}
+	originBefore := map[string]bool{}
+	var regKeys []regKey
+	for _, tk := range w.Toks {
+		for _, a := range tk.Aliases {
+			d, _ := xcache[a.Chain].Keeper.GetBridgeDenomByContract(c.Ctx, a.Contract)
+			regBefore[regKey{a.Chain, a.Contract}] = d
+			regKeys = append(regKeys, regKey{a.Chain, a.Contract})
+			originBefore[a.Denom] = c.App.Erc20Keeper.IsOriginOrConvertedDenom(c.Ctx, a.Denom)
+		}
+	}
 	w.C = nc
 	for _, ch := range []string{"eth", "bsc", "tron"} {
 		xcache[ch] = nc.X(ch)
@@ -81,7 +98,13 @@ func lifecycleHistory(seed int64, rep *lib.Report) {
 	after := w.cells(nc.Ctx)
 	for i := range before {
 		if before[i].Cmp(after[i]) != 0 {
-			fail("C08:export-import:ledger-changed", fmt.Sprintf("genesis export + import changed %s: %s before, %s after", names[i], before[i], after[i]))
+			fail(prop+":export-import:ledger-changed", fmt.Sprintf("genesis export + import changed %s: %s before, %s after", names[i], before[i], after[i]))
+			break
+		}
+	}
+	for _, k := range regKeys {
+		if d, _ := xcache[k.ch].Keeper.GetBridgeDenomByContract(nc.Ctx, k.contract); d != regBefore[k] {
+			fail("C04:export-import:bridge-token-registry-lost", fmt.Sprintf("after a genesis export + import the %s module no longer finds the bridge denomination of token contract %s (%q before, %q after): InitGenesis calls AddBridgeToken(token, denom) with the arguments the other way round, the registry is keyed by the contract address instead of the bridge denomination; deposits of that token can no longer be executed and sends towards it are refused", k.ch, k.contract, regBefore[k], d))
 			break
 		}
 	}
@@ -98,6 +121,33 @@ func lifecycleHistory(seed int64, rep *lib.Report) {
 		}
 		_ = pre
 		mon.books(o)
+	}
+	// what depends on the erc20 alias index (alias denom -> base denom), which is not part of the erc20 genesis state (C08-2):
+	// (a) the lookups themselves, (b) an alias coin converts to the base denom, (c) the mint-vs-unlock rule
+	// (IsOriginOrConvertedDenom: the bridge denomination of an externally-owned token is locked / unlocked, not burned / minted)
+	lost := func(what, detail string) {
+		fail("C08:export-import:alias-index-lost:"+what, "after a genesis export + import "+detail)
+	}
+	for _, t := range []int{1, 2} {
+		al := w.Toks[t].Alias("eth").Denom
+		if d, found := nc.App.Erc20Keeper.GetAliasDenom(nc.Ctx, al); !found || d != w.Toks[t].Base {
+			lost("lookup", fmt.Sprintf("the erc20 module no longer knows that %s is an alias of %s (GetAliasDenom: %q, %v) although the bank metadata lists it", al, w.Toks[t].Base, d, found))
+			break
+		}
+	}
+	cd := Op{K: "ConvertDenom", T: 2, A: 100, B: 100, Src: 1, Tgt: 0, X: 200}
+	if res := w.perform(&cd, record, mon); !res.ok {
+		lost("convert-denom", fmt.Sprintf("a holder of the alias coin can no longer convert it to the base denomination: %s is refused: %v", cd.Coq(), res.err))
+	} else {
+		mon.books(cd)
+	}
+	for _, tk := range w.Toks {
+		for _, al := range tk.Aliases {
+			if now := nc.App.Erc20Keeper.IsOriginOrConvertedDenom(nc.Ctx, al.Denom); now != originBefore[al.Denom] {
+				lost("mint-vs-unlock", fmt.Sprintf("IsOriginOrConvertedDenom(%s) (bridge denomination of the %s token %s: lock/unlock in the chain module vs. burn/mint, used by AddBridgeFee, TransferBridgeCoinToExternal and the bridge-call refund) was %v before the export and is %v after the import", al.Denom, tk.Kind, tk.Symbol, originBefore[al.Denom], now))
+				return
+			}
+		}
 	}
 }
 
